@@ -204,8 +204,9 @@ def render(p, seed):
     inside = grouped and rnd.random() < 0.5
     mind = ind0 if inside else ""
     mname = name if (inside or not grouped) else "grp." + name
-    if grouped and not inside and rnd.random() < 0.5:
-        lines.append("z_mid bool = true")
+    if grouped and not inside and p["place"] == "def" and rnd.random() < 0.5:
+        lines.append("z_mid bool = true")        # a further node; constraint lines that follow a modification
+                                                 # get no neighbour the abstract program does not know about
     for j, m in enumerate(p["mods"]):
         typed = rnd.random() < 0.25 and not p["dims"]
         lines.append(mind + mname + (" " + p["ty"] if typed else "") + " = " + value_text(p, m, rnd, salt + j + 1) + cm())
